@@ -759,10 +759,13 @@ def h_cummin(a, dim):
 
 @handler("diff")
 def h_diff(a, n=1, dim=-1, prepend=None, append=None):
-    if n != 1 or prepend is not None or append is not None:
-        raise EngineUnsupported("diff with n/prepend/append")
+    if n != 1:
+        raise EngineUnsupported("diff with n != 1")
     p = payload(a)
     dim = dim % p.ndim
+    parts = ([payload(prepend)] if prepend is not None else []) + [p] + ([payload(append)] if append is not None else [])
+    if len(parts) > 1:
+        p = np.concatenate(parts, axis=dim)
     q = np.moveaxis(p, dim, -1)
     r = _map(el.sub, q[..., 1:], q[..., :-1])
     return wrap(np.moveaxis(r, -1, dim).copy(), _dtype_of(a))
